@@ -78,6 +78,16 @@ type Z interface {
 }
 `
 
+// a package named foo that lives in a directory called bar
+const cliSrcC = `package cli
+
+import "example.com/m/d/bar"
+
+type CC interface {
+	Cee(c foo.T) foo.T
+}
+`
+
 const cliSub = "package sub\n\ntype T struct{}\n"
 
 type treeEntry struct {
@@ -191,7 +201,7 @@ func (fx *Fixture) newSandbox(work string, version int) *e5Sandbox {
 	sandboxMu.Unlock()
 	root := filepath.Join(work, "sb", fmt.Sprint(n))
 	writeFile(filepath.Join(root, "go.mod"), "module "+modPath+"\n\ngo 1.24\n")
-	for _, d := range []string{"~/a/foo", "~/b/foo"} {
+	for _, d := range []string{"~/a/foo", "~/b/foo", "~/d/bar"} {
 		writeFile(filepath.Join(root, d[2:], "p.go"), depBody(depName(d)))
 	}
 	pkg := filepath.Join(root, "s", "cli")
@@ -202,6 +212,11 @@ func (fx *Fixture) newSandbox(work string, version int) *e5Sandbox {
 	writeFile(filepath.Join(pkg, "a.go"), src)
 	writeFile(filepath.Join(pkg, "b.go"), cliSrcB)
 	writeFile(filepath.Join(pkg, "zz.go"), cliSrcZ)
+	writeFile(filepath.Join(pkg, "c.go"), cliSrcC)
+	// bystanders next to the usual -out names: a run must not touch them
+	writeFile(filepath.Join(pkg, "out_moq_test.go.tmp"), "bystander\n")
+	writeFile(filepath.Join(pkg, "x_moq.go.tmp"), "bystander\n")
+	writeFile(filepath.Join(pkg, "outdir.tmp"), "bystander\n")
 	writeFile(filepath.Join(pkg, "sub", "t.go"), cliSub)
 	writeFile(filepath.Join(pkg, "notes.txt"), "not a go file\n")
 	return &e5Sandbox{fx: fx, root: root, pkg: pkg}
@@ -285,10 +300,17 @@ func e5Cases(thorough bool) []e5Case {
 		}
 	}
 	// invoked from the module root with a relative source directory and a relative -out
-	for _, fl := range flagSets[:2] {
+	for _, fl := range [][]string{flagSets[0], flagSets[1], {"-fmt", "goimports"}, {"-fmt", "noop", "-stub"}} {
 		for _, rm := range []bool{false, true} {
 			out = append(out, e5Case{Desc: "from module root", Version: 1, OutMode: "from-root", Rm: rm, Flags: append(append([]string{}, fl...), "-pkg", "gen"), SrcDir: "./s/cli", Ifaces: []string{"A", "B"}, ExpectFail: false})
 			out = append(out, e5Case{Desc: "from module root, bad argument", Version: 1, OutMode: "from-root", Rm: rm, Flags: fl, SrcDir: "./s/cli", Ifaces: []string{"A", "Nope"}, ExpectFail: true, Why: "unknown type name"})
+		}
+	}
+	// an unknown -fmt value means gofmt: unformattable output must still be rejected
+	for _, bad := range []string{"A:1x", "A:"} {
+		for _, om := range []string{"", "new", "existing"} {
+			out = append(out, e5Case{Desc: "unknown -fmt value with an unformattable mock name", Version: 1, OutMode: om, Flags: []string{"-fmt", "gofumpt"}, SrcDir: ".",
+				Ifaces: []string{"B", bad}, ExpectFail: true, Why: "mock name is not an identifier"})
 		}
 	}
 	// stdout is /dev/full
@@ -298,7 +320,9 @@ func e5Cases(thorough bool) []e5Case {
 	return out
 }
 
-const oldContent = "package cli\n\n// previous content of the output file\nvar keepMe = 1\n"
+// previous content of the -out file: longer than any generated mock (a write that does not
+// truncate would leave a stale tail)
+var oldContent = "package cli\n\n// previous content of the output file\nvar keepMe = 1\n" + strings.Repeat("// old old old old old old old old old old old old old old old old\n", 400)
 
 // prepare materialises the prior state of the -out path; returns the -out value ("" = stdout).
 func (c *e5Case) prepare(sb *e5Sandbox) (outArg string, outAbs string) {
